@@ -350,9 +350,14 @@ def scen_vhdx(ctx, M):
     if mi is not None:
         e = HDR + 16 + 32 * mi
         mcount = len(mt)
+        cnt_bytes = list(mcount.to_bytes(2, 'little'))
+        if p.get('mcount') == 'sym':
+            # entry count of the metadata table symbolic: small, or at /
+            # beyond the limit (bounds the entry loop)
+            cnt_bytes = [('sym', 'mc0'), ('sym', 'mc1')]
         table = [('sym', 'msig0') if p.get('sigs', 'sym') == 'sym'
                  else ord('m')] + list(b'etadata') + [0, 0] + \
-            list(mcount.to_bytes(2, 'little')) + [0] * 20
+            cnt_bytes + [0] * 20
         vi = mt.index('vds') if 'vds' in mt else None
         for i, kind in enumerate(mt):
             g = G_VDS if kind == 'vds' else G_FILEPARAM
@@ -398,6 +403,9 @@ def scen_vhdx(ctx, M):
     if not ctx.sym and mi is not None:
         Mv = S.le(HDR + 16 + 32 * mi + 16, 8)
         family(Mv)
+    if p.get('mcount') == 'sym' and mi is not None:
+        mc = S.le(Mv + 10, 2)
+        ctx.assume(OR(mc <= 2, mc >= 2047))
     cs = cuts(ctx, p['cuts'], N)
     cls = fi.VHDXInspector
     eb, B = feed(ctx, fi, cls, [S.whole()], False, bound=512 * KiB)
@@ -411,7 +419,8 @@ def scen_vhdx(ctx, M):
         total = total + v
     ctx.check('C05-bound', total <= 512 * KiB)
     for name, region in A._capture_regions.items():
-        ctx.check('C05-region-length-%s' % name, region.length <= 64 * KiB)
+        ctx.check('C05-region-length-%s' % name,
+                  AND(region.length >= 0, region.length <= 64 * KiB))
     if ea is not None or eb is not None:
         ctx.goal('rejected-by-eat_chunk')
         return (ea, eb)
@@ -1181,6 +1190,7 @@ def scen_vmdk(ctx, M):
     capsum = 0
     for name, region in A._capture_regions.items():
         capsum = capsum + region.length
+        ctx.check('C05-region-length-nonnegative', region.length >= 0)
     ctx.check('C05-region-caps', capsum <= VMDK_BOUND)
     if ea is not None or eb is not None:
         ctx.goal('rejected-by-eat_chunk')
